@@ -140,6 +140,18 @@ func c02Frame(r *Rng, peer net.IP, known bool) ([]byte, string) {
 	}
 }
 
+// c02Seg is one segment of a history on a single 4-tuple; Ack "srv" acknowledges what the listener sent last.
+type c02Seg struct {
+	IP      string `json:"ip"`
+	SPort   int    `json:"sport"`
+	DPort   int    `json:"dport"`
+	Flags   byte   `json:"flags"`
+	Seq     uint32 `json:"seq"`
+	Ack     string `json:"ack"`
+	Payload string `json:"payload,omitempty"`
+	Known   bool   `json:"known"`
+}
+
 func genC02(seed uint64, idx int, tier string) *Scenario {
 	r := NewRng(seed, "c02")
 	sc := &Scenario{Engine: "c02", Params: map[string]interface{}{}}
@@ -180,6 +192,57 @@ func genC02(seed uint64, idx int, tier string) *Scenario {
 		}
 		a.Ops = append(a.Ops, Op{K: "synflood", Ms: int64(r.Range(1, 5000)), Note: "10.1." + fmt.Sprint(r.Intn(200)) + ".1"})
 		classes[fmt.Sprintf("synflood-%d", n)] = true
+	} else if mode == 1 || mode == 2 {
+		// histories on ONE 4-tuple (or two): SYN, then resets / acks / data / FIN / a repeated SYN in seeded
+		// order with client-side sequence numbers that fit, acknowledging what the listener really sent
+		// (the segment is completed at run time from the frames the listener emitted)
+		classes["tcp-conversation"] = true
+		for t := r.Range(1, 2); t > 0; t-- {
+			sport, dport := r.Range(1024, 65535), r.Range(1, 65535)
+			if r.Chance(0.3) {
+				dport = []int{23, 80, 443, 445, 1433, 6379, 9200, 8080}[r.Intn(8)]
+			}
+			isn := r.Uint32()
+			sent := uint32(0)
+			add := func(fl byte, seq uint32, ack string, pl []byte) {
+				ej, _ := json.Marshal(c02Seg{IP: peer.String(), SPort: sport, DPort: dport, Flags: fl, Seq: seq, Ack: ack, Payload: hex.EncodeToString(pl), Known: knownPeer || nc.GatewayARP})
+				a.Ops = append(a.Ops, Op{K: "tcpseg", Exp: ej})
+			}
+			if r.Chance(0.85) {
+				add(tcpSYN, isn, "zero", nil)
+			}
+			for k := r.Range(1, 9); k > 0; k-- {
+				ack := "srv"
+				if r.Chance(0.15) {
+					ack = []string{"zero", "rand"}[r.Intn(2)]
+				}
+				switch r.Intn(9) {
+				case 0, 1:
+					add(tcpRST, isn+1+sent, ack, nil)
+				case 2:
+					add(tcpRST|tcpACK, isn+1+sent, ack, nil)
+				case 3:
+					add(tcpACK, isn+1+sent, ack, nil)
+				case 4:
+					pl := r.Bytes(r.Range(1, 40))
+					add(tcpPSH|tcpACK, isn+1+sent, ack, pl)
+					sent += uint32(len(pl))
+				case 5:
+					add(tcpFIN|tcpACK, isn+1+sent, ack, nil)
+				case 6:
+					add(tcpSYN, isn, "zero", nil) // retransmitted SYN
+				case 7:
+					isn = r.Uint32() // a new connection attempt on the same port pair
+					sent = 0
+					add(tcpSYN, isn, "zero", nil)
+				default:
+					add(byte(r.Intn(64)), isn+uint32(r.Intn(3)), ack, r.Bytes(r.Range(0, 4)))
+				}
+				if r.Chance(0.1) {
+					a.Ops = append(a.Ops, Op{K: "sleep", Ms: []int64{1, 5000, 31000, 61000}[r.Intn(4)]})
+				}
+			}
+		}
 	} else {
 		n := r.Range(1, 60)
 		for i := 0; i < n; i++ {
@@ -242,6 +305,36 @@ func runC02(t *testing.T, sc *Scenario) Result {
 			switch op.K {
 			case "frame":
 				sys.Inject(op.Bytes())
+				frames++
+			case "tcpseg":
+				var sg c02Seg
+				json.Unmarshal(op.Exp, &sg)
+				ip := net.ParseIP(sg.IP).To4()
+				ack := uint32(0)
+				switch sg.Ack {
+				case "rand":
+					ack = uint32(sc.Seed>>7) ^ sg.Seq
+				case "srv":
+					// what the listener sent last on this 4-tuple
+					fr := sys.SentFrames()
+					for i := len(fr) - 1; i >= 0; i-- {
+						d := decodeTCPFrame(fr[i].Data)
+						if d.Err == "" && d.DstIP.Equal(ip) && int(d.DPort) == sg.SPort && int(d.SPort) == sg.DPort {
+							ack = d.Seq + uint32(len(d.Payload))
+							if d.Flags&(tcpSYN|tcpFIN) != 0 {
+								ack++
+							}
+							break
+						}
+					}
+				}
+				pl, _ := hex.DecodeString(sg.Payload)
+				src := peerMAC(ip)
+				if !sg.Known {
+					src = gatewayMAC
+				}
+				seg := tcpSegment(ip, sensorRaw, uint16(sg.SPort), uint16(sg.DPort), sg.Seq, ack, sg.Flags, 65535, nil, pl)
+				sys.Inject(ethFrame(sensorMAC, src, 0x0800, ipv4Packet(ip, sensorRaw, 6, uint16(sg.Seq), seg)))
 				frames++
 			case "eintr":
 				sys.InjectEINTR(1)
